@@ -708,6 +708,58 @@ func c15(c *fw.Ctx) {
 		}
 		c.Exhaustive("ECI numbers 0..999999 in every designator form")
 	}
+	// one designator, several byte segments: a designator stays in effect until the next one
+	// (other segments in between do not end it)
+	c.Run("eci-several-segments", func(r *fw.Rec) {
+		v5, _ := qrdec.Version_GetVersionForNumber(5)
+		for i := range csTable {
+			e := &csTable[i]
+			payload, want := c15Payload(e)
+			if len(e.Values) == 0 {
+				continue
+			}
+			for _, between := range []string{"", "A1", "42"} {
+				var w bitw
+				w.put(0x7, 4)
+				w.put(e.Values[0], 8)
+				w.put(0x4, 4)
+				w.put(len(payload), 8)
+				for _, b := range payload {
+					w.put(int(b), 8)
+				}
+				switch between {
+				case "A1":
+					w.put(0x2, 4)
+					w.put(2, 9)
+					w.put(10*45+1, 11)
+				case "42":
+					w.put(0x1, 4)
+					w.put(2, 10)
+					w.put(42, 7)
+				}
+				w.put(0x4, 4)
+				w.put(len(payload), 8)
+				for _, b := range payload {
+					w.put(int(b), 8)
+				}
+				w.put(0, 4)
+				res, err := qrdec.DecodedBitStreamParser_Decode(w.b, v5, qrdec.ErrorCorrectionLevel_L, nil)
+				r.Evals(1)
+				info := map[string]interface{}{"charset": e.Name, "eci": e.Values[0], "bytes": fmt.Sprintf("%x", payload), "segment_between": between}
+				if err != nil {
+					r.Violation("model-mismatch", "qr.parser:eci-several-segments-rejected", fmt.Sprintf("ECI %d, byte segment, %q, byte segment: rejected: %v", e.Values[0], between, err), info)
+					return
+				}
+				if res.GetText() != want+between+want {
+					r.Violation("model-mismatch", "qr.parser:eci-not-in-effect-for-later-segment", fmt.Sprintf("ECI %d (%s) followed by two byte segments %x (with %q between) decoded as %q, expected %q", e.Values[0], e.Name, payload, between, res.GetText(), want+between+want), info)
+					return
+				}
+				r.Tally("eci_in_effect_for_later_byte_segments")
+			}
+		}
+		r.Nontrivial("eci-several-segments")
+	})
+	c.Floor("eci_in_effect_for_later_byte_segments", 60)
 	// decode-side hint on an undesignated byte segment
 	c.Run("decode-hint", func(r *fw.Rec) {
 		for i := range csTable {
